@@ -243,9 +243,14 @@ pub fn exec_caught<E: Engine>(e: &E, sc: &E::Sc, stats: &mut Stats) -> Option<(V
             Violation::new("panic", format!("library code panicked outside a monitored call: {m}")),
             sc.clone(),
         )),
+        crate::locks::Caught::Panic(m) if !m.contains("@ harness:") => Some((
+            // std or a dependency panicked on behalf of library code running outside a monitored call
+            Violation::new("panic", format!("a panic escaped from code running outside a monitored call: {m}")),
+            sc.clone(),
+        )),
         crate::locks::Caught::Panic(m) | crate::locks::Caught::Abort(m) => {
-            eprintln!("HARNESS-ERROR: the harness itself panicked: {m}");
-            std::process::exit(3);
+            eprintln!("HARNESS-ERROR: the harness itself panicked or aborted a call outside a monitored region: {m}");
+            std::process::exit(2);
         }
     }
 }
@@ -411,6 +416,8 @@ pub struct BatchOut {
     pub wall: Duration,
     /// run index at which a worker process stopped making progress (hang) or died
     pub hung_at: Option<u64>,
+    /// workers that ended with a harness error of their own
+    pub worker_errors: Vec<String>,
 }
 
 /// Runs `runs` seeded scenarios on worker processes. Run `i` depends only on
@@ -423,6 +430,7 @@ pub fn run_batch(engine_key: &str, tag: &str, seed: u64, runs: u64, tier: Tier, 
     let pid = std::process::id();
     let stop_at = Arc::new(AtomicU64::new(u64::MAX));
     let hung: Arc<Mutex<Option<u64>>> = Arc::new(Mutex::new(None));
+    let worker_errors: Mutex<Vec<String>> = Mutex::new(Vec::new());
     let stall_limit = Duration::from_secs(
         std::env::var("GSIM_STALL_S").ok().and_then(|s| s.parse().ok()).unwrap_or(120),
     );
@@ -476,9 +484,16 @@ pub fn run_batch(engine_key: &str, tag: &str, seed: u64, runs: u64, tier: Tier, 
             if finished[w] {
                 continue;
             }
-            let exited = child.lock().unwrap().try_wait().ok().flatten().is_some();
+            let status = child.lock().unwrap().try_wait().ok().flatten();
+            let exited = status.is_some();
             if exited {
                 finished[w] = true;
+                if let Some(code) = status.and_then(|s| s.code()) {
+                    if code == 2 || code == 3 {
+                        // the worker itself reported a harness error (message on its stderr)
+                        worker_errors.lock().unwrap().push(format!("worker {w} of {tag} ended with a harness error (exit status {code})"));
+                    }
+                }
                 let parsed = std::fs::read(outfile).ok().and_then(|b| serde_json::from_slice::<WorkerFile>(&b).ok());
                 match parsed {
                     Some(wf) => {
@@ -487,6 +502,7 @@ pub fn run_batch(engine_key: &str, tag: &str, seed: u64, runs: u64, tier: Tier, 
                         }
                         results[w] = Some(wf);
                     }
+                    None if status.and_then(|s| s.code()).map(|c| c == 2 || c == 3).unwrap_or(false) => {}
                     None => {
                         // the worker died without a result (abort, stack overflow, ...) unless we
                         // killed it ourselves because a lower-index violation is already known
@@ -558,6 +574,7 @@ pub fn run_batch(engine_key: &str, tag: &str, seed: u64, runs: u64, tier: Tier, 
         violation,
         wall: start.elapsed(),
         hung_at,
+        worker_errors: worker_errors.into_inner().unwrap(),
     }
 }
 
